@@ -128,6 +128,10 @@ pub struct Ctx {
     pub digest: u64,
     pub excluded: u64,
     pub prop: &'static str,
+    /// non-trivial cases that are distinct by construction (enumerations), counted not hashed
+    pub distinct_counted: u64,
+    /// a more precise reproduction of the failure than the case input (sub-check name, input)
+    pub refine: Option<(&'static str, Input)>,
 }
 
 impl Ctx {
@@ -144,6 +148,19 @@ impl Ctx {
             digest: 0,
             excluded: 0,
             prop,
+            distinct_counted: 0,
+            refine: None,
+        }
+    }
+    /// count `n` further evaluations done inside one case (block enumerations)
+    pub fn more_evals(&mut self, n: u64) {
+        if !self.frozen {
+            self.evals += n;
+        }
+    }
+    pub fn count_distinct(&mut self, n: u64) {
+        if !self.frozen {
+            self.distinct_counted += n;
         }
     }
     #[inline]
@@ -213,6 +230,7 @@ impl Ctx {
         }
         self.digest = self.digest.wrapping_add(o.digest);
         self.excluded += o.excluded;
+        self.distinct_counted += o.distinct_counted;
     }
 }
 
@@ -434,11 +452,11 @@ impl Env {
         self.required.push((sub.to_string(), label.to_string()));
     }
 
-    fn finish(&mut self, sub: &Sub, mut total: Ctx, fail: Option<(Input, String)>, t0: Instant, exhaustive: Option<bool>) -> RunResult {
+    fn finish(&mut self, sub: &Sub, mut total: Ctx, fail: Option<(&'static str, Input, String)>, t0: Instant, exhaustive: Option<bool>) -> RunResult {
         let rep = SubReport {
             name: sub.name.to_string(),
             evals: total.evals,
-            distinct: total.distinct.len() as u64,
+            distinct: total.distinct.len() as u64 + total.distinct_counted,
             labels: std::mem::take(&mut total.labels).into_iter().collect(),
             samples: std::mem::take(&mut total.samples),
             known: std::mem::take(&mut total.known),
@@ -452,8 +470,8 @@ impl Env {
             eprintln!("INTERNAL-ERROR {}", e);
             std::process::exit(2);
         }
-        if let Some((input, msg)) = fail {
-            self.failure = Some(Failure { sub: sub.name.to_string(), input, msg });
+        if let Some((sn, input, msg)) = fail {
+            self.failure = Some(Failure { sub: sn.to_string(), input, msg });
             return Err(Stop);
         }
         Ok(())
@@ -467,7 +485,7 @@ impl Env {
         let seed = self.seed;
         let park = self.park;
         let profile = self.profile;
-        let results: Vec<(Ctx, Option<(Input, String)>)> = std::thread::scope(|sc| {
+        let results: Vec<(Ctx, Option<(&'static str, Input, String)>)> = std::thread::scope(|sc| {
             let hs: Vec<_> = (0..SHARDS)
                 .map(|shard| {
                     sc.spawn(move || {
@@ -514,9 +532,9 @@ impl Env {
                             Ok(()) => None,
                             Err(TestError::Fail(reason, tape)) => {
                                 STOP.store(true, Ordering::SeqCst);
-                                Some((Input::Tape(tape), reason.message().to_string()))
+                                Some((sub.name, Input::Tape(tape), reason.message().to_string()))
                             }
-                            Err(TestError::Abort(r)) => Some((Input::Tape(vec![]), format!("proptest aborted: {}", r.message()))),
+                            Err(TestError::Abort(r)) => Some((sub.name, Input::Tape(vec![]), format!("proptest aborted: {}", r.message()))),
                         };
                         let mut c = ctx.into_inner();
                         c.frozen = false;
@@ -549,7 +567,7 @@ impl Env {
         let park = self.park;
         let profile = self.profile;
         let mk = &mk;
-        let results: Vec<(Ctx, Option<(u64, Input, String)>)> = std::thread::scope(|sc| {
+        let results: Vec<(Ctx, Option<(u64, &'static str, Input, String)>)> = std::thread::scope(|sc| {
             let hs: Vec<_> = (0..SHARDS)
                 .map(|shard| {
                     sc.spawn(move || {
@@ -571,9 +589,11 @@ impl Env {
                             }
                             if let Err(v) = r {
                                 STOP.store(true, Ordering::SeqCst);
-                                fail = Some((i, input, v.msg));
+                                let (sn, inp) = ctx.refine.take().unwrap_or((sub.name, input));
+                                fail = Some((i, sn, inp, v.msg));
                                 break;
                             }
+                            ctx.refine = None;
                             i += SHARDS as u64;
                         }
                         (ctx, fail)
@@ -583,7 +603,7 @@ impl Env {
             hs.into_iter().map(|h| h.join().expect("shard thread")).collect()
         });
         let mut total = Ctx::new(prop, thorough);
-        let mut fail: Option<(u64, Input, String)> = None;
+        let mut fail: Option<(u64, &'static str, Input, String)> = None;
         for (c, f) in results {
             total.merge(c);
             if let Some(f) = f {
@@ -593,7 +613,7 @@ impl Env {
             }
         }
         let failed = fail.is_some();
-        self.finish(&sub, total, fail.map(|(_, i, m)| (i, m)), t0, Some(exhaustive && !failed))
+        self.finish(&sub, total, fail.map(|(_, s, i, m)| (s, i, m)), t0, Some(exhaustive && !failed))
     }
 
     /// run a fixed list of inputs (regressions, seeds, hand-written vectors), sequentially
@@ -612,9 +632,11 @@ impl Env {
                 unpark();
             }
             if let Err(v) = r {
-                fail = Some((input.clone(), v.msg));
+                let (sn, inp) = ctx.refine.take().unwrap_or((sub.name, input.clone()));
+                fail = Some((sn, inp, v.msg));
                 break;
             }
+            ctx.refine = None;
         }
         self.finish(&sub, ctx, fail, t0, None)
     }
